@@ -11,7 +11,7 @@ CFG = {
             "IsLL1, BuildParsingTable and every table cell, everything recomputed three more times (random hash-table iteration order); each result is "
             "compared as a set with the proved model, with an independently coded reachability characterisation and, on small grammars, with brute-force "
             "enumeration of bounded sentential forms.  A case is non-trivial when the grammar has a nullable non-terminal or a FIRST member that is "
-            "not the leading terminal of one of the non-terminal's own productions; distinct = distinct grammars. Half of the grammars give terminal i and non-terminal i the same NAME (symbols differ by Go type only); every case ends with in-place edits of its one grammar object (Productions.Add/Remove, Terminals.Add) after each of which NullableNonTerminals, FIRST, FOLLOW, IsLL1 and BuildParsingTable are recomputed on that object and compared with the model of the edited grammar.",
+            "not the leading terminal of one of the non-terminal's own productions; distinct = distinct grammars.  A third of the grammars use non-terminal NAMES whose concatenations are ambiguous (names=concat: A, AA, AAA ...), and for those FIRST is asked for colliding strings ([N0,N0] / [N1], [N0,N1] / [N1,N0] / [N2] / [N0,N0,N0]) in both orders on one FIRST function.  Wide grammars (20-70 terminals, one non-terminal with 20-40 alternatives) get the same battery under the watchdog. Half of the grammars give terminal i and non-terminal i the same NAME (symbols differ by Go type only); every case ends with in-place edits of its one grammar object (Productions.Add/Remove, Terminals.Add) after each of which NullableNonTerminals, FIRST, FOLLOW, IsLL1 and BuildParsingTable are recomputed on that object and compared with the model of the edited grammar.",
     "assumptions": ["terminals/non-terminals are modelled as natural numbers; the endmarker is not a terminal of the grammar (as grammar.Endmarker's documentation assumes)",
                     "the three fixpoint loops run on fuel in the model; C10_terminates proves the fuel is never exhausted",
                     "Go's randomised iteration order is an oracle of the model (one production order per pass and per loop); the theorems hold for every oracle that enumerates exactly the productions, the extracted model runs with the identity oracle, and the harness recomputes every result four times per grammar under Go's real random order"],
